@@ -591,6 +591,40 @@ fn flag_cases(o: &mut Out, special: &[ZcashAddress], r: &mut Rng) {
     }
 }
 
+/// Well-formed strings of the address encodings that are not Zcash addresses: Base58Check with a valid
+/// checksum and a payload of 0, 1, 2, 3, 21, 22 (unknown / known prefix, wrong length), 69 bytes; Bech32 and
+/// Bech32m with foreign or Zcash HRPs and empty / short / wrong-length data. In lead-address position, as
+/// `address=` and as `address.N=`. Expected: the address does not parse -> Err, never a panic.
+fn foreign_address_cases(o: &mut Out, g: &Gen, r: &mut Rng) {
+    use bech32::{Bech32, Bech32m, Hrp};
+    let valid = g.pool.iter().filter(|a| a.can_receive_memo()).min_by_key(|a| a.encode().len()).unwrap().encode();
+    let mut strs: Vec<String> = vec!["3QJmnh".into(), "4CyUtqx".into(), "1Wh4bh".into()];
+    for n in [0usize, 1, 2, 3, 21, 22, 23, 66, 69] {
+        for k in 0..3 {
+            let mut payload = r.bytes(n);
+            // known two-byte prefixes with a body of the wrong length; leading zero bytes
+            if k == 1 && n >= 2 { payload[0] = 0x1c; payload[1] = *r.pick(&[0xb8u8, 0xbd, 0xba]); }
+            if k == 2 && n >= 1 { payload[0] = 0; }
+            strs.push(bs58::encode(&payload).with_check().into_string());
+        }
+    }
+    for hrp in ["bc", "tb", "zs", "ztestsapling", "u", "utest", "tex", "textest", "zcash", "a", "uview"] {
+        for n in [0usize, 1, 20, 43] {
+            let data = r.bytes(n);
+            let h = Hrp::parse(hrp).unwrap();
+            if let Ok(e) = bech32::encode::<Bech32>(h, &data) { strs.push(e); }
+            if let Ok(e) = bech32::encode::<Bech32m>(h, &data) { strs.push(e.clone()); if n == 1 { strs.push(e.to_uppercase()); } }
+        }
+    }
+    for s in &strs {
+        from_uri_case(o, &format!("zcash:{s}"));
+        from_uri_case(o, &format!("zcash:{s}?amount=1"));
+        from_uri_case(o, &format!("zcash:?address={s}&amount=1"));
+        from_uri_case(o, &format!("zcash:?address={valid}&amount=1&address.1={s}"));
+        from_uri_case(o, &format!("zcash:{valid}?amount=1&address.7={s}&amount.7=2"));
+    }
+}
+
 fn hand_written() -> Vec<&'static str> {
     vec![
         "zcash:", "zcash:?", "", "zcash", "zcash:??", "zcash:?&", "zcash:#", "zcash:?amount=1",
@@ -697,6 +731,7 @@ fn main() {
 
     // --- hand-written URIs (ZIP 321 examples and boundary shapes) ------------------------------------
     for u in hand_written() { from_uri_case(&mut o, u); }
+    foreign_address_cases(&mut o, &g, &mut r);
     ordering_cases(&mut o, &g, a.thorough() || a.search);
     long_non_ascii_cases(&mut o, &g, a.thorough() || a.search);
 
